@@ -106,24 +106,24 @@ type HVCCArray struct {
 
 // HVCC is an HEVCDecoderConfigurationRecord (ISO/IEC 14496-15 §8.3.3.1.2).
 type HVCC struct {
-	Version              byte
-	ProfileSpace         byte
-	TierFlag             byte
-	ProfileIDC           byte
-	CompatibilityFlags   uint32
-	ConstraintFlags      uint64 // 48 bits
-	LevelIDC             byte
-	MinSpatialSegIDC     uint16
-	ParallelismType      byte
-	ChromaFormat         byte
-	BitDepthLumaM8       byte
-	BitDepthChromaM8     byte
-	AvgFrameRate         uint16
-	ConstantFrameRate    byte
-	NumTemporalLayers    byte
-	TemporalIDNested     byte
-	LengthSize           int
-	Arrays               []HVCCArray
+	Version            byte
+	ProfileSpace       byte
+	TierFlag           byte
+	ProfileIDC         byte
+	CompatibilityFlags uint32
+	ConstraintFlags    uint64 // 48 bits
+	LevelIDC           byte
+	MinSpatialSegIDC   uint16
+	ParallelismType    byte
+	ChromaFormat       byte
+	BitDepthLumaM8     byte
+	BitDepthChromaM8   byte
+	AvgFrameRate       uint16
+	ConstantFrameRate  byte
+	NumTemporalLayers  byte
+	TemporalIDNested   byte
+	LengthSize         int
+	Arrays             []HVCCArray
 }
 
 // NALs returns all NAL units of the given type over all arrays, in order.
